@@ -138,8 +138,8 @@ def drive(binary, test, env, timeout=1700):
 # ----------------------------------------------------------------------------------------------
 # C24  atomic marker moves
 MK = os.path.join(vlib.SPEC, "Marker")
-MK_CONSTS = dict(MaxMoves=99, MaxCrashes=99, MaxRemoveFails=99, BugNoDirSync=False, BugSyncBeforeCreate=False,
-                 BugLowestIterWins=False)
+MK_CONSTS = dict(MaxMoves=99, MaxCrashes=99, MaxRemoveFails=99, MaxFaults=99, BugNoDirSync=False, BugSyncBeforeCreate=False,
+                 BugLowestIterWins=False, BugIterLate=False)
 
 
 def run_c24(run):
@@ -149,25 +149,44 @@ def run_c24(run):
     if not quick:
         vlib.sany(MK, "MarkerTrace")
     bugs(run, "Marker", "Marker", [("Bug_NoDirSync.cfg", ["Atomic"]), ("Bug_SyncBeforeCreate.cfg", ["Atomic"]),
-                                   ("Bug_LowestIterWins.cfg", ["Atomic", "StaleNeverWins", "ObsoleteLower"])])
+                                   ("Bug_LowestIterWins.cfg", ["Atomic", "StaleNeverWins", "ObsoleteLower"]),
+                                   ("Bug_IterLate.cfg", ["UniqueIter", "Atomic", "StaleNeverWins"])])
     cfg = open(os.path.join(MK, "Marker.cfg")).read()
     if not quick:
         cfg = cfg.replace("MaxMoves = 3", "MaxMoves = 5").replace("MaxCrashes = 2", "MaxCrashes = 4").replace(
-            "MaxRemoveFails = 1", "MaxRemoveFails = 2")
-    mm = re.search(r"MaxMoves = (\d+)", cfg).group(1), re.search(r"MaxCrashes = (\d+)", cfg).group(1), re.search(r"MaxRemoveFails = (\d+)", cfg).group(1)
-    design(run, "Marker", "Marker", "MarkerRun.cfg", "Marker(MaxMoves=%s,MaxCrashes=%s,MaxRemoveFails=%s) exhaustive; Atomic is evaluated over every "
-           "crash state (every subset of unsynced entries) of every reachable state" % mm,
+            "MaxRemoveFails = 1", "MaxRemoveFails = 2").replace("MaxFaults = 1", "MaxFaults = 2")
+    mm = tuple(re.search(r"%s = (\d+)" % k, cfg).group(1) for k in ("MaxMoves", "MaxCrashes", "MaxRemoveFails", "MaxFaults"))
+    design(run, "Marker", "Marker", "MarkerRun.cfg", "Marker(MaxMoves=%s,MaxCrashes=%s,MaxRemoveFails=%s,MaxFaults=%s) exhaustive; injected errors at "
+           "Create (file made or not) / file Sync / Close / Remove / directory Sync, retries with the same and another value, re-locates; "
+           "Atomic is evaluated over every crash state (every subset of unsynced entries) of every reachable state" % mm,
            extra_files={"MarkerRun.cfg": cfg.encode()},
-           must_cover=["DoMove", "Create", "RemoveOld", "DoRemoveOldFail", "SyncDir", "RetMove", "DoRORemove", "DoCrash"])
+           must_cover=["DoMove", "Create", "RemoveOld", "DoRemoveOldFail", "SyncDir", "RetMove", "DoRORemove", "DoCrash",
+                       "DoFault", "CloseAfterErr", "RetMoveErr", "Relocate"])
     binp = vlib.build_driver("vfs/atomicfs", name="proto_atomicfs" + SFX)
     out = vlib.scratch("verif.mk.")
     env = dict(VERIF_OUT=out, VERIF_SEED=str(run.seed))
-    env.update(dict(VERIF_MOVES="3", VERIF_LEN="4", VERIF_CRASHES="2") if quick else
-               dict(VERIF_MOVES="4", VERIF_LEN="6", VERIF_CRASHES="3"))
+    env.update(dict(VERIF_MOVES="3", VERIF_LEN="4", VERIF_CRASHES="2", VERIF_FAULTS="1") if quick else
+               dict(VERIF_MOVES="4", VERIF_LEN="6", VERIF_CRASHES="3", VERIF_FAULTS="1"))
+    is_start = lambda l: l.startswith('{"crashesleft"') or '"op":"start"' in l
+    extra_evals = 0
+    if not quick:
+        # second pass: two injected errors per script (a failed retry, a failure after a failure), smaller bounds
+        out2 = vlib.scratch("verif.mk2.")
+        st2, _ = drive(binp, "TestVProtoMarker", dict(env, VERIF_OUT=out2, VERIF_MOVES="3", VERIF_LEN="5", VERIF_CRASHES="2", VERIF_FAULTS="2"))
+        p2 = os.path.join(out2, "marker.ndjson")
+        two_stage(run, MK, "MarkerTrace", MK_CONSTS, p2, ("crashread", "liveread", "relocate", "start"), "C24-2faults", is_start)
+        run.cov["driver_two_faults_pass"] = st2
+        run.traces += st2.get("scripts", 0)
+        extra_evals = st2.get("clones", 0)
+        os.remove(p2)
     st, _ = drive(binp, "TestVProtoMarker", env)
     path = os.path.join(out, "marker.ndjson")
-    is_start = lambda l: l.startswith('{"crashesleft"') or '"op":"start"' in l
-    res = two_stage(run, MK, "MarkerTrace", MK_CONSTS, path, ("crashread", "liveread"), "C24", is_start)
+    res = two_stage(run, MK, "MarkerTrace", MK_CONSTS, path, ("crashread", "liveread", "relocate", "start"), "C24", is_start)
+    fi = st.get("faults_injected", {})
+    if not run.violations and (any(fi.get("M!" + k, 0) < 1 for k in ("create", "createlost", "syncfile", "close", "remove", "syncdir"))
+                               or st.get("retry_steps_other_value", 0) < 1 or st.get("retry_steps_same_value", 0) < 1):
+        # counted on what the driver injected / scripted, not on how the code under test reacted
+        raise vlib.Inconclusive("vacuous marker workload (an error kind or a retry was never scripted): %s" % st)
     lines = open(path).read().splitlines()
     # evidence
     evals, distinct, ncalls, hdr = 0, set(), 0, None
@@ -175,20 +194,23 @@ def run_c24(run):
         e = json.loads(l)
         if e["op"] == "start":
             hdr, ncalls = e, 0
-        elif e["op"] == "call":
+        elif e["op"] in ("call", "relocate"):
             ncalls += 1
         elif e["op"] in ("crashread", "liveread"):
             evals += 1
             if e["op"] == "crashread" and e["unsynced"]:
-                distinct.add((json.dumps(hdr["files"]), hdr["script"][:ncalls], e["n"], json.dumps(e["keep"])))
+                distinct.add((json.dumps(hdr["files"]), " ".join(hdr["script"][:ncalls]), e["n"], json.dumps(e["keep"])))
     run.traces += st.get("scripts", 0)
-    run.cov["evaluations"] = evals
+    run.cov["evaluations"] = evals + extra_evals
     run.cov["distinct_nontrivial"] = len(distinct)
-    run.cov["rule"] = ("evaluation = one ReadMarker result on a crash clone (after FS op n, survival subset keep) or on the live directory "
-                       "between calls, asserted by TLC (MarkerTrace) to be the last returned or the in-flight value; non-trivial = the "
+    run.cov["rule"] = ("evaluation = one ReadMarker result + directory listing on a crash clone (after FS op n, survival subset keep) or on the "
+                       "live directory between calls, asserted by TLC (MarkerTrace) to be - for every listing order - the value of the last Move "
+                       "that returned nil, of a Move that returned an error since, or the in-flight value; non-trivial = the "
                        "clone was taken while at least one directory entry was unsynced; distinct by (start directory, script prefix, op "
-                       "index, survival subset). The driver enumerates ALL scripts over Move/RemoveObsolete (<=1 injected Remove error) "
-                       "within the bounds, ALL op indices and ALL subsets; every clone is also a new start directory.")
+                       "index, survival subset). The driver enumerates ALL scripts over Move (fresh value / retry of a failed Move with the same "
+                       "value) / RemoveObsolete / re-LocateMarker with <= VERIF_FAULTS injected errors (Create with and without the file made, "
+                       "file Sync, Close, Remove, directory Sync = panic) within the bounds, ALL op indices and ALL subsets; every clone is "
+                       "also a new start directory.")
     run.cov["driver"] = st
     run.cov["exhaustive"] = True
     run.cov["strict_structural_match"] = res["strict_ok"]
@@ -226,7 +248,9 @@ def run_c24(run):
         "crash model = vfs.MemFS crash clones (children' = syncedChildren + any subset of unsynced entries; unsynced removals never take effect); "
         "removal-order changes are invisible under this model (DESIGN Appendix A)",
         "marker files are empty, so no file-data survival choices exist; one marker per directory in the driver",
-        "Create/Sync errors are not injected (Move panics on a directory sync error); only Remove errors are",
+        "injected errors: a failing op has no effect on the filesystem except the 'createlost' Create (file made, error returned); a failing "
+        "Close did close the file; after a directory Sync error Move panics and the marker is not used again (crash clones only)",
+        "a re-locate without a crash decides nothing: values of failed Moves stay possible until the next Move that returns nil",
     ]
 
 
@@ -363,7 +387,8 @@ def run_c41(run):
         vlib.sany(SO, "SharedObj")
     if not quick:
         vlib.sany(SO, "SharedObjTrace")
-    bugs(run, "SharedObj", "SharedObj", [("Bug_CheckBeforeCreateRef.cfg", ["Safe"]), ("Bug_DeleteWithoutList.cfg", ["Safe", "DeleteOnlyUnreferenced"])])
+    bugs(run, "SharedObj", "SharedObj", [("Bug_CheckBeforeCreateRef.cfg", ["Safe"]), ("Bug_DeleteWithoutList.cfg", ["Safe", "DeleteOnlyUnreferenced"]),
+                                         ("Bug_DropCloseError.cfg", ["Safe", "DeleteOnlyUnreferenced"])])
     binp = vlib.build_driver("objstorage/objstorageprovider", name="proto_objprovider" + SFX)
     total_forced = total_paths = 0
     any_drift = False
@@ -376,9 +401,11 @@ def run_c41(run):
         r = vlib.tlc(SO, "SharedObj", cfgname, workers=1, timeout=900, coverage=True, dump_dot=dot, workdir=wd)
         if not r.ok:
             raise vlib.Inconclusive("SharedObj design run failed: %s\n%s" % (r.violation, r.out[-2000:]))
-        run.add_design("SharedObj(N=%d chained providers) exhaustive + state graph dump" % n, r)
+        mf = int(re.search(r"MaxFaults = (\d+)", open(os.path.join(SO, cfgname)).read()).group(1))
+        run.add_design("SharedObj(N=%d chained providers, <= %d failing remote operations) exhaustive + state graph dump" % (n, mf), r)
         if n == 3:
-            for a in ("GetBacking", "ACreateRef", "ACheck", "RDelRef", "RList", "RDelObj"):
+            for a in ("CCreateObj", "CCreateRef", "GetBacking", "ACreateRef", "ACheck", "RDelRef", "RList", "RDelObj",
+                      "FailCreate", "FailWrite", "FailClose", "Fail"):
                 if r.coverage.get(a, (0, 0))[1] == 0:
                     raise vlib.Inconclusive("vacuous SharedObj run: %s never taken" % a)
         init, succ, text = load_graph(dot)
@@ -386,13 +413,14 @@ def run_c41(run):
             raise vlib.Inconclusive("no initial state in the dot dump")
         npaths, memo = count_paths(init, succ)
         nedges = sum(len(v) for v in succ.values())
-        if quick and npaths > 20000:
+        if npaths > (1500 if quick else 60000):
             paths = edge_cover(init, succ, rng)
+            ncover = len(paths)
             have = set(tuple(p) for p in paths)
-            for p in sample_paths(init, succ, memo, 500, rng):
+            for p in sample_paths(init, succ, memo, (400 if n == 3 else 200) if quick else 30000, rng):
                 if tuple(p) not in have:
                     paths.append(p)
-            sel = "edge cover + seeded uniform sample"
+            sel = "greedy cover of every edge of the state graph (%d paths) + seeded uniform sample" % ncover
         else:
             paths = all_paths(init, succ)
             sel = "all maximal paths"
@@ -404,7 +432,7 @@ def run_c41(run):
         env = dict(VERIF_OUT=out, VERIF_N=str(n), VERIF_SEED=str(run.seed), VERIF_SCHEDULES=sf,
                    VERIF_EXPLORE=str((1500 if quick else 20000) if n == 3 else (500 if quick else 5000)))
         st, _ = drive(binp, "TestVProtoSharedObj", env)
-        consts = dict(N=n, BugCheckBeforeCreateRef=False, BugDeleteWithoutList=False)
+        consts = dict(N=n, MaxFaults=99, BugCheckBeforeCreateRef=False, BugDeleteWithoutList=False, BugDropCloseError=False)
         is_start = lambda l: '"op":"start"' in l
         fpath, epath = os.path.join(out, "forced.ndjson"), os.path.join(out, "explore.ndjson")
         rf = two_stage(run, SO, "SharedObjTrace", consts, fpath, ("obs",), "C41-forced-N%d" % n, is_start)
@@ -422,6 +450,8 @@ def run_c41(run):
             st["fallback_explore_runs"] = st2["explore_runs"]
             violated = violated or r2["violated"]
         violated = violated or rf["violated"] or re_["violated"]
+        if not violated and (st.get("forced_failing_ops", 0) < 10 or st.get("explore_failing_ops", 0) < 10):
+            raise vlib.Inconclusive("vacuous shared-object workload (no failing remote operations were injected): %s" % st)
         results[n] = dict(graph_states=len(succ), graph_edges=nedges, maximal_interleavings=npaths, replayed=len(paths),
                           selection=sel, driver=st, forced_strict_ok=rf["strict_ok"], explore_strict_ok=re_["strict_ok"])
         total_forced += st.get("followed", 0)
@@ -475,16 +505,18 @@ def run_c41(run):
                     run.sample(e, cap=5)
     run.cov["per_config"] = results
     run.cov["forced_schedules_bound"] = not any_drift
-    run.cov["exhaustive"] = (not quick) and not any_drift
+    run.cov["exhaustive"] = (not any_drift) and all(v["selection"] == "all maximal paths" for v in results.values())
     run.cov["rule"] = ("evaluation = one (provider, step) re-open + re-read of the shared object by a provider whose Create/Attach succeeded and "
                        "that has not called Remove, after one released remote.Storage call, asserted readable by TLC (SharedObjTrace); a run "
                        "is non-trivial when store calls of >= 2 providers were interleaved in it; distinct by the sequence of (call kind, provider). "
-                       "Forced runs replay TLC's state graph of SharedObj.tla (thorough: every maximal interleaving; quick: an edge cover + a "
-                       "seeded uniform sample); exploration releases the gate in seeded random order.")
+                       "Forced runs replay TLC's state graph of SharedObj.tla including its failing operations (every maximal interleaving when "
+                       "there are at most 1500 (quick) / 60000 (thorough), else a greedy cover of every edge + a seeded uniform sample); "
+                       "exploration releases the gate in seeded random order and makes up to 2 operations of every other run fail.")
     run.assumptions += [
         "one shared object, providers chained (p attaches from p-1's backing), backing handles closed before the race (isProtected would otherwise "
         "turn the race into the documented safe leak)",
         "remote.Storage calls are atomic and linearizable (in-memory store); CreateObject takes effect at Close",
+        "a failing remote operation has no effect on the store (transient error before the operation); lost acknowledgements are not modelled",
         "the invariants build tag is off, so OpenForReading does not check the own ref marker",
     ]
 
@@ -704,8 +736,8 @@ def c30_forced(run, dots):
 # ----------------------------------------------------------------------------------------------
 # C34  block cache
 CA = os.path.join(vlib.SPEC, "Cache")
-CA_CONSTS = dict(NK=1, NV=2, Cap=1, MaxHold=1, Readers=3, BugStaleAfterDelete=False, BugGetNoAcquire=False, BugWakeAllOnError=False, MaxK=12)
-CA_OBS = ("get", "rhget", "set", "rel", "del", "evictfile", "closeh", "newh", "reserve", "unreserve", "rhset", "rherr", "readok", "readerr", "stuck", "arrive")
+CA_CONSTS = dict(NK=1, NV=2, Cap=1, MaxHold=1, Readers=3, BugStaleAfterDelete=False, BugGetNoAcquire=False, BugWakeAllOnError=False, BugLeakOnCancel=False, MaxK=12)
+CA_OBS = ("get", "rhget", "set", "rel", "del", "evictfile", "closeh", "newh", "reserve", "unreserve", "rhset", "rherr", "readok", "readerr", "stuck", "arrive", "cancel", "rdel")
 
 
 def run_c34(run):
@@ -715,7 +747,7 @@ def run_c34(run):
         vlib.sany(CA, "Cache")
         vlib.sany(CA, "CacheTrace")
     bugs(run, "Cache", "Cache", [("Bug_StaleAfterDelete.cfg", ["HitIsLatest"]), ("Bug_GetNoAcquire.cfg", ["RefsExact", "NoFreeWhileReferenced"]),
-                                 ("Bug_WakeAllOnError.cfg", ["SingleFlight"])])
+                                 ("Bug_WakeAllOnError.cfg", ["SingleFlight"]), ("Bug_LeakOnCancel.cfg", ["NoStaleRead"])])
     cfg = open(os.path.join(CA, "Cache.cfg")).read()
     if not quick:
         cfg = cfg.replace("NK = 3", "NK = 4").replace("NV = 3", "NV = 4").replace("Readers = 2", "Readers = 3")
@@ -723,7 +755,8 @@ def run_c34(run):
     design(run, "Cache", "Cache", "CacheRun.cfg", lab, extra_files={"CacheRun.cfg": cfg.encode()}, heap="10g")
     wd = vlib.scratch("verif.cag.")
     dot = os.path.join(wd, "graph.dot")
-    r = design(run, "Cache", "Cache", "CacheRS.cfg", "Cache read shard alone (3 readers, <= 2 read errors) exhaustive + state graph dump", workdir=wd, dump_dot=dot, workers=1)
+    r = design(run, "Cache", "Cache", "CacheRS.cfg", "Cache read shard alone (3 readers, <= 2 read errors / cancelled waits, Delete of the block) exhaustive + state graph dump",
+               workdir=wd, dump_dot=dot, workers=1, must_cover=["Arrive", "ReadOK", "ReadErr", "Cancel", "Delete"])
     init, succ, _ = load_graph(dot)
     npaths, memo = count_paths(init, succ)
     paths = all_paths(init, succ) if npaths <= 5000 else sample_paths(init, succ, memo, 3000, rng)
@@ -755,7 +788,8 @@ def run_c34(run):
                       "(always by less than the last inserted value, which TLC enforces)" % OVERCAP[0])
     if died and not [v for v in run.violations]:
         raise vlib.Inconclusive("cache driver died and the part of the trace it logged was accepted:\n" + died[-1500:])
-    if not died and (st.get("seq_hits", 0) < 20 or st.get("seq_evictions_observed", 0) < 5):
+    if not died and not run.violations and (st.get("seq_hits", 0) < 20 or st.get("seq_evictions_observed", 0) < 5
+                                            or st.get("seq_cancelled_ctx_while_turn_held", 0) < 3 or st.get("seq_read_turns_kept", 0) < 3):
         raise vlib.Inconclusive("vacuous cache workload: %s" % st)
     r2 = dict(strict_ok=None, drift=None, violated=False)
     if not died:
@@ -790,7 +824,7 @@ def run_c34(run):
         def corrupt(ls):
             e = json.loads(ls[gi]); e["res"] = e["res"] + 50; ls[gi] = json.dumps(e); return ls, gi
         demo_reject(CA, "CacheTrace", dict(CA_CONSTS, Strict=False), lines[:gi + 1], corrupt, "Get result replaced by another value id")
-        oi = [i for i, l in enumerate(rlines[:200]) if '"op":"readok"' in l and l.count("],[") >= 1][0]
+        oi = [i for i, l in enumerate(rlines) if '"op":"readok"' in l and l.count("],[") >= 1][0]
 
         def corrupt2(ls):
             e = json.loads(ls[oi]); e["rets"][-1][1] = 9; ls[oi] = json.dumps(e); return ls, oi
@@ -813,18 +847,22 @@ NOTE = ("Trusted: TLC, the TLA+ module as the statement of the protocol, the Go 
 
 def REGISTER(reg):
     reg("C24", "Atomic marker moves", run_c24,
-        "Marker.tla (Move/RemoveObsolete/Locate over a CrashFS directory model) is checked exhaustively with Atomic evaluated over every "
-        "crash subset; the real atomicfs.Marker over a crashable MemFS is driven through every script within the bounds, a crash clone is "
-        "taken after every filesystem op for every subset of unsynced entries (deterministic CrashCloneWith), and TLC validates every "
-        "(op index, survival subset, ReadMarker result) against the spec.", NOTE,
-        "TLA+ (Marker.tla) + TLC exhaustive + exhaustive crash-clone enumeration on the real code validated by TLC (MarkerTrace)", "DESIGN 6/C24",
+        "Marker.tla (Move/RemoveObsolete/Locate over a CrashFS directory model, with an injected I/O error at every filesystem step of Move - "
+        "Create with and without the file coming into existence, file Sync, Close, Remove, directory Sync - retries of a failed Move with the "
+        "same and another value, and re-locates) is checked exhaustively with Atomic evaluated over every crash subset and every order of the "
+        "directory listing; the real atomicfs.Marker over a crashable MemFS is driven through every script within the bounds (same faults, "
+        "injected through the wrapped vfs.FS), a crash clone is taken after every filesystem op for every subset of unsynced entries "
+        "(deterministic CrashCloneWith), and TLC validates every (op index, survival subset, ReadMarker result, directory listing) against the spec.", NOTE,
+        "TLA+ (Marker.tla) + TLC exhaustive + exhaustive crash-clone and single-fault enumeration on the real code validated by TLC (MarkerTrace)", "DESIGN 6/C24",
         engine="proto")
     reg("C41", "Shared objects deleted only when unreferenced", run_c41,
-        "SharedObj.tla (one action per remote.Storage call of sharedUnref / AttachRemoteObjects) is checked exhaustively for 2 and 3 chained "
-        "providers; TLC's state graph is dumped and its interleavings are forced, call by call, onto real providers sharing one in-memory "
-        "remote.Storage behind a blocking gate (thorough: every maximal interleaving); TLC validates every step (store contents = spec state) "
-        "and, after every step, that every successfully attached provider can still read the object. Structural mismatch = DRIFT -> "
-        "exploration with random gate order decides.", NOTE,
+        "SharedObj.tla (one action per remote.Storage operation of Create/Finish, AttachRemoteObjects and Remove = sharedUnref, each of which may "
+        "also FAIL - uploads at CreateObject, Write or Close - with Remove retried after an error) is checked exhaustively for 2 and 3 chained "
+        "providers; TLC's state graph is dumped and its interleavings, including the failing operations, are forced, operation by operation, onto "
+        "real providers sharing one in-memory remote.Storage behind a blocking gate (a cover of every edge of the graph + a seeded sample; every "
+        "maximal interleaving when there are few enough); TLC validates every step (store contents = spec state, a failed operation is reported "
+        "by the API) and, after every step, that every provider whose Create/Attach succeeded can still read the object and has its own "
+        "reference marker in the store. Structural mismatch = DRIFT -> exploration with random gate order and random failures decides.", NOTE,
         "TLA+ (SharedObj.tla) + TLC exhaustive + forced interleavings from TLC's state graph on real code (gate on remote.Storage) + TLC trace validation",
         "DESIGN 6/C41", engine="proto")
 
@@ -840,10 +878,13 @@ def REGISTER(reg):
 
 
     reg("C34", "Block cache", run_c34,
-        "Cache.tla (Get/Set/Delete/EvictFile/free eviction, Value refcounts, read-shard single flight) is checked exhaustively; seeded random "
-        "op sequences run on a real one-shard cache of a few values and after every op the Peek of every key, Value.refs() of every held value "
-        "and Size()/MaxSize() are validated by TLC; every schedule of the read-shard state graph (3 readers, <=2 failed reads) is forced onto real "
-        "GetWithReadHandle callers with the block read as the gate and the released readers/outcomes validated by TLC.", NOTE,
+        "Cache.tla (Get/Set/Delete/EvictFile/free eviction, Value refcounts, read-shard single flight with the read entry's reference count, "
+        "waiters whose context is cancelled, invalidation between readers) is checked exhaustively; seeded random op sequences run on a real "
+        "one-shard cache of a few values - including read turns kept over later ops, callers with a cancelled context meanwhile, then "
+        "SetReadValue/SetReadError, Delete/EvictFile - and after every op the result, the Peek of every key, Value.refs() of every held value "
+        "and Size()/MaxSize() are validated by TLC; every schedule of the read-shard state graph (3 readers, <=2 failed reads / cancelled waits, "
+        "Delete of the block) is forced onto real GetWithReadHandle callers with the block read as the gate and the released readers/outcomes "
+        "validated by TLC.", NOTE,
         "TLA+ (Cache.tla) + TLC exhaustive + TLC validation of recorded op sequences + forced read-shard schedules from TLC's state graph",
         "DESIGN 6/C34", engine="proto")
 
